@@ -8,13 +8,16 @@ import impl
 RULE = ("tissues with arbitrary assigned pressures and tensions (zero and negative included), grid sizes 1..12, radii 0.5..6 cell radii; "
         "the same Frame object is evaluated repeatedly with different assignments (linearity, pure pressure); non-trivial = at least "
         "one grid cell selects a tissue cell; distinct = (tissue, grid, radius)")
-TRUSTED = ["Model/Stress.v sigma (PrimFloat instance) tied to stress_tensor.stress_tensor by correspondence with tolerance 1e-9; cell centroids, "
+TRUSTED = ["Model/StressGrid.v (np.histogram's bin edges, grid centres, the cells within the radius of a grid centre, the interfaces touching them; binary64 instance) tied to the whole "
+           "analysis: bin edges and grid centres bit for bit, every grid cell's tensor within 1e-9 (grids up to 10 x 10; min_distance^2 is the implementation's own expression "
+           "evaluated on its own table of areas)",
+           "Model/Stress.v sigma (PrimFloat instance) tied to stress_tensor.stress_tensor by correspondence with tolerance 1e-9; cell centroids, "
            "|areas|, histogram edges and the interface vectors (circle fit) are taken from the implementation as oracle values by the model "
            "side and recomputed independently by the oracle (except the fitted vectors)"]
 ASSUMPTIONS = ["np.linalg.eig is an oracle; eigenpairs are checked by residual"]
 TESTED_NOT_PROVED = ["'the principal stresses are the eigen-decomposition of the tensor at each grid centre': the closed form of the eigenvalues is proved to be the roots of the "
                      "characteristic polynomial (C18_principal_are_eigenvalues) and compared with numpy's eig (PrimFloat, 1e-9); the eigenvectors are checked by residual"]
-IMPORTS = "From Forsys Require Import Model.Num Model.CaseUtil Model.Stress.\n"
+IMPORTS = "From Forsys Require Import Model.Num Model.CaseUtil Model.Stress Model.StressGrid.\n"
 
 
 def own_sigma(fr, grid, radius, vectors):
@@ -65,6 +68,30 @@ def assign(fr, pres, tens):
         b.tension = float(t)
 
 
+def grid_model_case(res, fr, grid, radius, pres, tens, sig, centres, bins, exprs, replay):
+    """Model/StressGrid.v (binary64 instance) against the whole analysis: the tables the implementation works on (get_cells_df /
+    get_big_edges_df: centroids, |areas|, cell pairs, fitted vectors - oracle values) and min_distance^2 (the implementation's own
+    expression evaluated on its own table) go in; bin edges and grid centres must come out bit for bit, the tensor of every grid cell -
+    i.e. which cells and interfaces each grid centre selects - within 1e-9"""
+    if grid > 10 or sum(1 for e_, _ in exprs if e_.startswith("grid_matches")) >= 4:
+        return                                   # above 10 x 10 the dictionary keys collide (D10)
+    assign(fr, pres, tens)
+    with impl.quiet():
+        cdf = impl.fs.stress_tensor.get_cells_df(fr)
+        edf = impl.fs.stress_tensor.get_big_edges_df(fr)
+    md = radius * np.sqrt(cdf["area"].mean() / np.pi)
+    md2 = float(md ** 2)
+    cells_l = "[" + "; ".join(f"({C.zlit(int(i))}, ({C.flit(x)}, {C.flit(y)}), ({C.flit(a)}, {C.flit(p)}))"
+                              for i, x, y, a, p in zip(cdf["ids"], cdf["xcm"], cdf["ycm"], cdf["area"], cdf["pressure"])) + "]"
+    edges_l = "[" + "; ".join(f"(({C.zlit(int(c1))}, {C.zlit(int(c2))}), ({C.flit(t)}, ({C.flit(v[0])}, {C.flit(v[1])}, {C.flit(float(np.linalg.norm(v)))})))"
+                              for c1, c2, t, v in zip(edf["cell1"], edf["cell2"], edf["stress"], edf["vector"])) + "]"
+    fl = lambda arr: "[" + "; ".join(C.flit(float(x)) for x in arr) + "]"   # noqa
+    sig_l = "[" + "; ".join(f"({C.flit(sig[f'{r}{c}'][0, 0])}, {C.flit(sig[f'{r}{c}'][0, 1])}, {C.flit(sig[f'{r}{c}'][1, 1])})"
+                            for r in range(grid) for c in range(grid)) + "]"
+    exprs.append((f"grid_matches {C.flit(1e-9)} {grid} {C.flit(md2)} {cells_l} {edges_l} {fl(bins[0])} {fl(bins[1])} {fl(centres[0])} {fl(centres[1])} {sig_l}", replay))
+    res.count("whole analysis against Model/StressGrid.v (bins and centres bit for bit, every grid cell's selection through its tensor)")
+
+
 def check_case(res, spec, grid, radius, rng, exprs, label):
     fr = impl.frame(spec)
     replay = {"spec": {k: spec[k] for k in ("vertices", "edges", "cells")}, "grid": grid, "radius": radius, "label": label}
@@ -102,6 +129,7 @@ def check_case(res, spec, grid, radius, rng, exprs, label):
     except Exception as ex:  # noqa
         res.fail("oracle", f"stress_tensor raised {type(ex).__name__}: {str(ex)[:80]}", replay)
         return
+    grid_model_case(res, fr, grid, radius, p1, t1, s1, centres, bins, exprs, replay)
     nonempty = 0
     collide = {}
     for r in range(grid):
